@@ -47,6 +47,20 @@ impl Iterator for LazyRecordIterator<'_> {
             return None;
         }
 
+        // The header is untrusted: nothing is allocated from its counts before it fits the data
+        let data_len = self.cursor.get_ref().len() as u64;
+        let fits = self.header.check_fits(data_len).and_then(|_| {
+            if self.schema.is_none() {
+                self.header.check_raw_fields_fit(data_len)
+            } else {
+                Ok(())
+            }
+        });
+        if let Err(e) = fits {
+            self.current_index = self.total_records;
+            return Some(Err(e));
+        }
+
         let record = if let Some(schema) = self.schema {
             self.parse_record_with_schema(schema)
         } else {
@@ -150,6 +164,12 @@ impl<'a> LazyDbcParser<'a> {
                 index,
                 self.header.record_count - 1
             )));
+        }
+
+        // The header is untrusted: nothing is allocated from its counts before it fits the data
+        self.header.check_fits(self.data.len() as u64)?;
+        if self.schema.is_none() {
+            self.header.check_raw_fields_fit(self.data.len() as u64)?;
         }
 
         let mut cursor = Cursor::new(self.data);
